@@ -53,6 +53,26 @@ BUILT = {
             "or modelling them).",
             "the reference table is a transcription (one line per wire type, each citing its "
             "trait); Java/C++ sources are scanned for anchors only.", "4/C08"),
+    "C01": ("persisted-state agreement between constructors, writers and readers; boolean-"
+            "context (falsy-drop) scan over all writer/reader functions; whole-map AuxData transfer",
+            "Structural: every constructor-declared state attribute of the 11 persisted classes is "
+            "read by a writer and re-established by a reader (type-resolved receivers); no integer/"
+            "string scalar decides presence by truthiness; AuxData maps travel unfiltered. Together "
+            "with C02 (field/name/kind agreement) nothing can be dropped on the way out or in. "
+            "Round-trip VALUE equality, construction-order independence and byte-identical re-save "
+            "are not decided.",
+            "constructors declare the persisted state; protobuf runtime fidelity.", "4/C01"),
+    "C02": ("schema-typed dataflow over _pb2 message objects: every field read/write attributed to "
+            "(Message, field) and compared with proto/*.proto per direction; enum mirror; header "
+            "constant folding",
+            "Structural: all 62 reachable schema fields are written and read; each written value "
+            "derives from the attribute the field mirrors, with the right kind (uuid bytes, enum "
+            ".value, presence flags from 'is None'); each read flows to the mirrored constructor "
+            "keyword/attribute; the 7 Python enums are bijective with the schema's 102 constants; "
+            "header layout matches PROTOBUF.md and version.txt. Each direction is checked against "
+            "the schema on its own. Behaviour under the upb vs pure-Python back-ends is not decided.",
+            "proto/*.proto is the schema the _pb2 modules are generated from (they are build "
+            "products absent from the tree).", "4/C02"),
 }
 
 REASON_PENDING = "check not built yet (construction phase); planned, see DESIGN.md section 4"
